@@ -3,7 +3,7 @@ CONSTANTS Comp = "multi"
   NP = 3
   Links <- L_Tri
   NoFlood <- NF_Tri
-  Cuts <- C_Tri1
+  Cuts <- C_Tri12
   Hosts <- H2
   InitAt <- At2_2
   MovePorts <- Mv_none
@@ -12,7 +12,8 @@ CONSTANTS Comp = "multi"
   NBuf = 2
   Gaps <- G_none
   Strict = TRUE
-  D = 7
+  Busy = TRUE
+  D = 8
 INIT Init
 NEXT Next
 VIEW viewE
